@@ -152,7 +152,7 @@ class LeafVisitStage(object):
                 rec.note("geom-mismatch", *key)
             rec.end(key)
 
-        self._build().visit_leaves(callback, parallel=parallel, **common.pkw())
+        self._build().visit_leaves(callback, parallel=common.parg(parallel), **common.pkw())
 
 
 class TransformStage(object):
@@ -180,7 +180,7 @@ class TransformStage(object):
                 rec.note("bad-buf", *key)
             rec.end(key)
 
-        _do_a_transform(None, self.depth, lambda: np.zeros(4), do_one, parallel=parallel, **common.pkw())
+        _do_a_transform(None, self.depth, lambda: np.zeros(4), do_one, parallel=common.parg(parallel), **common.pkw())
 
 
 class WalkStage(object):
@@ -204,7 +204,7 @@ class WalkStage(object):
             rec.begin(key)
             rec.end(key)
 
-        self.cfg.build().walk(callback, parallel=parallel, **common.pkw())
+        self.cfg.build().walk(callback, parallel=common.parg(parallel), **common.pkw())
 
 
 class U8TransformStage(object):
@@ -248,7 +248,7 @@ class U8TransformStage(object):
         # the public entry point, with the per-tile function it looks up at call time wrapped for recording
         transform._u8_to_rgb_do_one = do_one
         try:
-            transform.u8_to_rgb(pio, self.depth, parallel=parallel, **common.pkw())
+            transform.u8_to_rgb(pio, self.depth, parallel=common.parg(parallel), **common.pkw())
         finally:
             transform._u8_to_rgb_do_one = orig
 
@@ -306,7 +306,7 @@ class F16TransformStage(U8TransformStage):
 
         transform._float_to_rgb_do_one = do_one
         try:
-            transform.f16x3_to_rgb(pio, self.depth, clip=self.clip, parallel=parallel, **common.pkw())
+            transform.f16x3_to_rgb(pio, self.depth, clip=self.clip, parallel=common.parg(parallel), **common.pkw())
         finally:
             transform._float_to_rgb_do_one = orig
 
@@ -377,7 +377,7 @@ class RealCascadeStage(object):
 
     def run(self, parallel, rec, env_dir=None):
         from toasty.merge import averaging_merger, cascade_images
-        cascade_images(PyramidIO(env_dir, default_format=self.fmt), self.start, averaging_merger, parallel=parallel, **common.pkw())
+        cascade_images(PyramidIO(env_dir, default_format=self.fmt), self.start, averaging_merger, parallel=common.parg(parallel), **common.pkw())
 
 
 class RealSamplingStage(object):
@@ -419,6 +419,6 @@ class RealSamplingStage(object):
 
         pio = PyramidIO(env_dir, default_format="npy")
         if self.update:
-            ttoast.sample_layer_filtered(pio, lambda t: True, sampler, self.depth, parallel=parallel, **common.pkw())
+            ttoast.sample_layer_filtered(pio, lambda t: True, sampler, self.depth, parallel=common.parg(parallel), **common.pkw())
         else:
-            ttoast.sample_layer(pio, sampler, self.depth, parallel=parallel, **common.pkw())
+            ttoast.sample_layer(pio, sampler, self.depth, parallel=common.parg(parallel), **common.pkw())
